@@ -451,22 +451,22 @@ def rule_translation(chk, prog):
 def run(chk):
     prog = chk.load()
     reviewed = load_reviewed()
-    rule_ptr_cmp(chk, prog, reviewed)
-    rule_ptr_containers(chk, prog, reviewed)
-    rule_ptr_misc(chk, prog, reviewed)
-    rule_nondet(chk, prog, reviewed)
-    rule_prng(chk, prog)
-    rule_id_tiebreak(chk, prog)
-    rule_global_state(chk, prog)
-    rule_translation(chk, prog)
+    chk.guard(rule_ptr_cmp, chk, prog, reviewed)
+    chk.guard(rule_ptr_containers, chk, prog, reviewed)
+    chk.guard(rule_ptr_misc, chk, prog, reviewed)
+    chk.guard(rule_nondet, chk, prog, reviewed)
+    chk.guard(rule_prng, chk, prog)
+    chk.guard(rule_id_tiebreak, chk, prog)
+    chk.guard(rule_global_state, chk, prog)
+    chk.guard(rule_translation, chk, prog)
     from .c09 import rule_paired_borders
     from .c05 import rule_turn_prune_mirror, rule_flags_mirror, rule_endpoint_dirs
-    rule_paired_borders(chk, prog)
-    rule_turn_prune_mirror(chk, prog)
-    rule_flags_mirror(chk, prog)          # low/high passes of the visibility flags are mirror images
-    rule_endpoint_dirs(chk, prog)         # up/down permitted directions are treated alike
+    chk.guard(rule_paired_borders, chk, prog)
+    chk.guard(rule_turn_prune_mirror, chk, prog)
+    chk.guard(rule_flags_mirror, chk, prog)          # low/high passes of the visibility flags are mirror images
+    chk.guard(rule_endpoint_dirs, chk, prog)         # up/down permitted directions are treated alike
     from ..rules import mirrors
     r = chk.rule("MIRROR", "the x and y twins of the rectangle / box accessors and movers are mirror images (tables/mirrors.json): a "
                  "transposed scene is treated as the transpose", floor=8)
     mirrors.check(r, prog, ["vpsc::Rectangle::", "Avoid::Box::", "topology::LayoutObstacle::"], sample=chk.sample)
-    rule_init(chk, prog, prop="C20")
+    chk.guard(rule_init, chk, prog, prop="C20")
